@@ -400,4 +400,35 @@ CommittedIn(lab, v) ==
   ELSE IF v[1] = "N" THEN CommittedIn(v[3], v[2]) \cup CommittedIn(v[5], v[4])
   ELSE {}
 CommittedBy(digest) == CommittedIn(<<>>, digest[2])
+
+(* what the rebuilt end tree is made of: the proof elements that survive as its leaves *)
+AuditorSurvivors(unchanged, inserted, endEpoch) ==
+  LET st == InsertEpoch(EmptyStore, AuditorEndSet(unchanged, inserted, endEpoch), endEpoch, "aud").st IN
+  { v.label : v \in { w \in StoreView(st, endEpoch) : w.type = "leaf" } }
+
+(* The adversary of C09 against the tree stored in (st, t): `unchanged` any set of <= MaxU real nodes  *)
+(* (label, value as the parent sees it); when that set reproduces the start hash, `inserted` any set  *)
+(* of <= MaxI elements over all labels of length 1..D and the given raw values.                         *)
+AuditUnchangedChoices(st, t, MaxU) ==
+  LET M == Material(st, t) IN
+  { { M.el[a] : a \in A } : A \in { B \in SUBSET (M.N \ {<<>>}) : Cardinality(B) <= MaxU } }
+
+AuditInsertedChoices(D, Vals, MaxI) ==
+  LET E == { [label |-> q, value |-> v] : q \in (BitStrings(D) \ {<<>>}), v \in Vals } IN
+  {{}} \cup (IF MaxI >= 1 THEN { {a} : a \in E } ELSE {})
+       \cup (IF MaxI >= 2 THEN { {a, b} : a \in E, b \in E } ELSE {})
+       \cup (IF MaxI >= 3 THEN { {a, b, c} : a \in E, b \in E, c \in E } ELSE {})
+
+(* soundness of one accepted candidate: everything the start hash commits to is still committed *)
+AuditCandSound(st, t, U, I) ==
+  LET hs == RootHashAt(st, t)
+      he == AuditorEndHash(U, I, t + 1)
+  IN AuditorAccepts(U, I, hs, he, t + 1, FALSE) => CommittedBy(hs) \subseteq CommittedBy(he)
+
+AuditSoundAt(st, t, D, Vals, MaxU, MaxI) ==
+  \A U \in AuditUnchangedChoices(st, t, MaxU) :
+     IF AuditorStartHash(U) = RootHashAt(st, t)
+       THEN \A I \in AuditInsertedChoices(D, Vals, MaxI) : AuditCandSound(st, t, U, I)
+       ELSE TRUE      \* rejected whatever is inserted
+
 =============================================================================
